@@ -13,6 +13,7 @@ import (
 	"path/filepath"
 	"strings"
 	"sync"
+	"sync/atomic"
 	"time"
 
 	"github.com/saucelabs/forwarder/verifharness/lib"
@@ -195,7 +196,7 @@ func main() {
 	d.Close()
 
 	direct := startChild(run, w, "direct", "--mitm", "--mitm-domains", `faulttls\.test,plainonhttps\.test,wrongcert\.test`, "--credentials", "siteuser:sitepw@site.test:80")
-	viaUp := startChild(run, w, "upstream", "--proxy", "http://"+w.up.Addr, "--mitm", "--mitm-domains", `.*\.mitm\.test`)
+	viaUp := startChild(run, w, "upstream", "--proxy", "http://"+w.up.Addr, "--mitm", "--mitm-domains", `.*\.mitm\.test`, "--connect-header", "X-Via-Forwarder: 1", "--connect-header", "X-Second: 2")
 	tlsL := startChild(run, w, "tls-listener", "--protocol", "https")
 	if direct == nil || viaUp == nil || tlsL == nil {
 		run.Finish()
@@ -205,6 +206,7 @@ func main() {
 	upstreamFaults(run, w, root, direct, viaUp)
 	hostileClients(run, w, root, direct, tlsL)
 	fdFlood(run, w)
+	concurrentRejectedConnects(run, w, viaUp)
 	for _, c := range children {
 		if !c.cli.Alive() {
 			run.Violation("process-died:"+c.name, "forwarder child exited: "+lib.Trunc(tail(c.cli.Output(), 2000), 2000), -1, nil)
@@ -289,6 +291,43 @@ func fdFlood(run *lib.Run, w *world) {
 		return
 	}
 	run.Violation("fd-exhaustion-stops-serving", fmt.Sprintf("%d idle connections exhausted the proxy's file descriptors for 1.5 s; 15 s after they were closed a well-behaved request is still not served (process alive: %v): %s", len(conns), c.cli.Alive(), lib.Trunc(tail(c.cli.Output(), 1500), 1500)), idx, nil)
+}
+
+// concurrentRejectedConnects: many clients at once whose CONNECT the upstream proxy rejects; each
+// must get the upstream's status, and the process must survive (connect-header rules are configured).
+func concurrentRejectedConnects(run *lib.Run, w *world, c *child) {
+	const idx = 2_100_000
+	if !run.Want(idx) {
+		return
+	}
+	run.Case(idx, "upstream|concurrent-rejected-connects", nil)
+	var bad atomic.Int64
+	var wg sync.WaitGroup
+	for k := 0; k < 32; k++ {
+		wg.Add(1)
+		go func(k int) {
+			defer wg.Done()
+			for j := 0; j < 25; j++ {
+				st, err := dialChild(c)
+				if err != nil {
+					bad.Add(1)
+					continue
+				}
+				fmt.Fprintf(st.C, "CONNECT reject403.test:443 HTTP/1.1\r\nHost: reject403.test:443\r\n\r\n")
+				m, pst, _ := st.ReadResponse("CONNECT", 10*time.Second)
+				st.Close()
+				if pst != lib.POK || m.Status != 403 {
+					bad.Add(1)
+				}
+			}
+		}(k)
+	}
+	wg.Wait()
+	run.Count("concurrent_connects_checked", 800)
+	if n := bad.Load(); n > 0 || !c.cli.Alive() {
+		run.Violation("concurrent-connects:"+map[bool]string{true: "answered-wrongly", false: "process-died"}[c.cli.Alive()], fmt.Sprintf("%d of 800 CONNECTs sent by 32 clients at once (the upstream proxy rejects them with 403) were not answered 403; process alive: %v; %s", n, c.cli.Alive(), lib.Trunc(tail(c.cli.Output(), 1200), 1200)), idx, nil)
+	}
+	probe(run, c, idx, "800 concurrent rejected CONNECTs")
 }
 
 // probe: a healthy request through child c must be served.
